@@ -104,6 +104,16 @@ CLAIMS = {
             "against the automaton.",
             "flock(2) semantics assumed; a crash between fallocate and the first write of a new file is outside the model",
             "Coq invariant proof over an executable LTS + forced multi-process orderings", "6/C13, App. G"),
+    "C14": ("proof",
+            "Coq (ApiFlow/ApiFacts): over the public signature table regenerated from nightly rustdoc JSON on every run, every "
+            "function's map-pointing results are tied to the borrow of the transaction (receiver borrow, receiver / argument anchors, impl "
+            "bounds) or own their bytes (body classification read from the source), no transaction-derived type is Send, DB is Send + Sync + "
+            "Clone; the pinned to_bytes and a loosened get_kv are rejected by the same check; the theorem is about jammdb's signatures: "
+            "rustc's borrow checker is trusted and is the judge of a generated client corpus whose per-program verdicts must coincide with "
+            "the check; programs that compile and carry a value out run in a probe while the file is remapped.",
+            "rustc / Rust's soundness trusted; the run-time half (no map read after the transaction ended) is covered only by probe runs; "
+            "body classification (owned vs borrowed Bytes) is a syntactic reading of the ToBytes impls",
+            "Coq finite check over a generated API table + rustc verdicts on a generated client corpus + probe runs", "6/C14, App. I"),
     "C15": ("proof",
             "Coq (CodecFacts, MetaFacts, CfgFacts): the page decoder inverts the page encoder for every page body and every content of "
             "the uninitialised bytes, the header codec round-trips, sizes / offsets / magic / type codes are pinned against the GENERATED "
